@@ -23,4 +23,4 @@ for i in ids:
     cr["command"] = "tools/eval_mutant.py %s seeded/%s/patch.diff" % (meta["property"], i)
     json.dump(meta, open(os.path.join(d, "meta.json"), "w"), indent=1)
     print(i, v, (det[0][:200] if det else ""))
-subprocess.run(["git", "-C", "/verif", "checkout", "--", "evidence"], stderr=subprocess.DEVNULL)
+pass  # evidence / build output of the mutated run went to the scratch directory (VERIF_EVIDENCE_DIR / VERIF_BUILD_DIR)
